@@ -837,6 +837,9 @@ func (g *Gen) val(v ssa.Value) string {
 		sym := "fn." + mangle(funcKey(x))
 		g.vc.Declare(sym, nil, SInt)
 		g.vc.Def(Not(Eq(sym, "0")))
+		// a plain function value designates its function like a closure does (fnof(), isclosure())
+		g.vc.Declare("closfn", []Sort{SInt}, SInt)
+		g.vc.Def(Eq(App("closfn", sym), g.fnTag(funcKey(x))))
 		g.vals[v] = sym
 		return sym
 	case *ssa.Global:
